@@ -829,7 +829,7 @@ func bigAlphabet(level int) []string {
 // lifecycleAlphabet: calls around one proposal by account 1 that account 0 can make pass (51% of 4500 = 2295)
 func lifecycleAlphabet() []string {
 	return []string{"vote 0 1 2295", "vote 0 1 2294", "vote 0 1 1", "vote 1 1 500", "timer 5", "timer 9", "thaw 1 1", "xfer 0 1 1",
-		"xfer 1 0 500", "xfer 0 0 100", "propose 0 60 5 0 0", "timer 0", "unlock P 1 1000 o", "lock T 0 705 t", "xfer 0 1 705", "vote 50 1 0"}
+		"xfer 1 0 500", "xfer 0 0 100", "propose 0 60 5 0 0", "timer 0", "unlock P 1 1000 o", "lock T 0 705 t", "xfer 0 1 705", "vote 50 1 0", "propose 1 60 7 0 0", "lock P 0 2295 o"}
 }
 
 // enumerate all sequences of exactly 1..depth calls from alphabet after the given prefix
@@ -1123,7 +1123,7 @@ func main() {
 	for _, ok := range []string{"1", "0"} {
 		enumerate(out, []string{resetBig, "init 0", "propose 1 51 5 9 " + ok}, lifecycleAlphabet(), lifeDepth)
 		enumerate(out, []string{"reset 0:3000 1:1500 50:2500", "init 0", "propose 1 51 5 9 " + ok, "vote 50 1 1500"}, lifecycleAlphabet(), lifeDepth-1)
-		enumerate(out, []string{resetBig, "init 0", "propose 1 51 5 9 " + ok, "vote 0 1 2295", "timer 5"}, lifecycleAlphabet(), lifeDepth)
+		enumerate(out, []string{resetBig, "init 0", "propose 1 51 5 9 " + ok, "vote 0 1 2295", "timer 5"}, lifecycleAlphabet(), 3)
 	}
 	rules = append(rules, fmt.Sprintf("all sequences of <= %d calls over %d calls after a proposal that can pass (votes at threshold-1 / threshold, timers at stop and trigger heights, trigger target ok/failing)", lifeDepth, len(lifecycleAlphabet())))
 	// 3. random longer sequences (duplicated genesis entries, lower-case account, all callers)
